@@ -12,6 +12,18 @@ def c03Same (tag : String) (a b : Sexp) : Bool :=
   | none, none => true
   | _, _ => false
 
+/-- The dump without the `Iterations` entries (key 0). -/
+def c03DumpNoCounter (out : Sexp) : Sexp :=
+  match c03Field "dump" out with
+  | some (.list (tag :: scopes)) =>
+    .list (tag :: scopes.map fun sc =>
+      match sc with
+      | .list es => .list (es.filter fun e => match e with
+          | .list [.atom "0", _] => false
+          | _ => true)
+      | x => x)
+  | _ => .atom "-"
+
 /-- `agree`: the code-shaped model's output equals the implementation's.
 `holds`: the implementation's trace, result, scope depth and registry are those of the
 corresponding structured program (`srun (prog c)`), and the depth is the caller's depth. -/
@@ -25,7 +37,8 @@ def c03 (input implOut : Sexp) : Option Verdict := do
     if !c03Same "trace" spec implOut then "order"
     else if !c03Same "res" spec implOut then "err"
     else if !depthKept || !c03Same "depth" spec implOut then "leak"
-    else if !c03Same "dump" spec implOut then "lost-state"
+    else if !c03Same "dump" spec implOut then
+      (if Sexp.beq (c03DumpNoCounter spec) (c03DumpNoCounter implOut) then "count" else "lost-state")
     else if !Sexp.beq spec implOut then "wrong-value"
     else "-"
   pure { agree, holds := cls == "-", cls, model }
